@@ -164,7 +164,7 @@ def gen_cases(tier, seed):
     cases = []
     for mod, cls in schema.all_classes():
         cases.append({"id": "%s.%s" % (mod.__name__, cls.__name__), "sig": [mod.__name__, cls.__name__], "module": mod.__name__,
-                      "cls": cls.__name__, "parents": 1 if tier == "quick" else 6})
+                      "cls": cls.__name__, "parents": 1 if tier == "quick" else 1000})
     return cases
 
 
